@@ -48,6 +48,16 @@ def rule_holders(ctx):
             ctx.violation("%s|field %s|holder" % h, h[0], "new owner of an Arc<boxcar::Vec<T>> (%s.%s): active_injectors subtracts exactly one term per non-injector holder and would over-count" % h)
     for h in sorted(expect - set(hs)):
         ctx.violation("%s|field %s|gone" % h, h[0], "%s.%s no longer holds the stream: the subtraction in active_injectors no longer matches the holders" % h)
+    # closures that take a handle to a stream BY VALUE are holders too (e.g. a handle parked in the closure spawned
+    # on the pool): strong_count sees them, the subtraction does not
+    for b in facts.bodies_of("nucleo"):
+        if b.get("kind") != "Closure":
+            continue
+        for c in b.get("captures", []):
+            ty = c.get("ty", "")
+            if "Arc<boxcar::Vec<" in ty and str(c.get("by", "")).startswith("ByValue"):
+                ctx.violation("%s|capture %s|holder" % (b["path"], c.get("var") or c.get("name")), "%s:%d" % (b["loc"]["file"], b["loc"]["line"]),
+                              "closure %s owns an `%s` (captured by value): one more live handle to an item stream than active_injectors subtracts" % (b["path"], ty))
     # statics holding one
     for k in facts.crate("nucleo")["consts"]:
         if k["kind"] == "static" and "boxcar::Vec" in (k.get("ty") or ""):
@@ -191,7 +201,15 @@ def rule_transitions(ctx):
         ctx.ok(site(rs, 0), "restart leaves the worker's handle alone (Cleared ⇒ 1 matcher ref to the new stream)")
 
 
+def rule_restart_fresh(ctx):
+    """Premise of `injectors of a previous stream are never counted`: restart ALWAYS installs a freshly allocated
+    stream (shared with C12.restart-shape)."""
+    from props.c12 import rule_restart_shape
+    rule_restart_shape(ctx)
+
+
 def rules(ctx):
+    ctx.run_rule("C20.restart-fresh", rule_restart_fresh)
     ctx.run_rule("C20.holders", rule_holders)
     ctx.run_rule("C20.refs-table", rule_refs_table)
     ctx.run_rule("C20.transitions", rule_transitions)
